@@ -75,6 +75,19 @@ int str_table_copy(str_table_t *dst, const str_table_t *src)
 	hash_table_foreach(dst->ht, ent) {
 		bucket = alloc_flex(sizeof(*bucket), 1, strlen(ent->key) + 1);
 		if (bucket == NULL) {
+			/* entries that have not been duplicated yet still
+			   point at the buckets of the source table */
+			array = (str_bucket_t **)src->bucket_ptrs.data;
+
+			hash_table_foreach(dst->ht, it) {
+				bucket = it->data;
+
+				if (bucket == array[bucket->index]) {
+					it->data = NULL;
+					it->key = NULL;
+				}
+			}
+
 			str_table_cleanup(dst);
 			return SQFS_ERROR_ALLOC;
 		}
